@@ -175,7 +175,7 @@ std::vector<int> Handle::vf_refvec(const char *slot, const char *method) const {
   return it == d_->refvec.end() ? std::vector<int>() : it->second;
 }
 // Runs `per_event(ev)` for every index of the schedule given on the command line.
-int drive(int argc, char **argv, const std::function<void()> &per_event) {
+int drive(int argc, char **argv, const std::function<bool()> &per_event) {
   if (argc < 2) {
     std::cout << "HARNESS-ERROR usage" << std::endl;
     return 3;
@@ -189,15 +189,22 @@ int drive(int argc, char **argv, const std::function<void()> &per_event) {
     EventData *ev = evs.at(k).get();
     current_event() = ev;
     std::cout << "EVENT " << ev->id << std::endl;
+    bool dead = false;
     try {
-      per_event();
+      if (!per_event()) dead = true;  // failed status: the real framework aborts the job
     } catch (const std::exception &e) {
       std::cout << "FAULT " << hexs(demangle(typeid(e).name())) << " " << hexs(e.what()) << std::endl;
+      dead = true;
     } catch (...) {
       std::cout << "FAULT " << hexs("unknown") << " -" << std::endl;
+      dead = true;
     }
     ev->arena.clear();
     current_event() = nullptr;
+    if (dead) {
+      std::cout << "ABORTED" << std::endl;
+      break;
+    }
   }
   std::cout << "END" << std::endl;
   return 0;
